@@ -148,6 +148,8 @@ def rule_ws_api(ctx, rep):
                     if fnp in WS_UNICODE:
                         uni.append((path, fnp))
     rep.ok(R, 'inventory', 'no ASCII-only whitespace facility among %d call sites' % n)
+    if getattr(ctx, 'inventory_only', False):
+        return
     want = {('word_to_digit::text2digits', 'core::str::split_whitespace'),
             ('word_to_digit::is_whitespace', 'core::char::methods::is_whitespace'),
             ("word_to_digit::FindNumbers::<'a, L, T, I>::outside_number", 'core::str::trim')}
@@ -196,10 +198,20 @@ def rule_tokenizer_tiling(ctx, rep):
                 ok = ok and any('== None' in z for z in qq.facts(bi))
         rep.check(ok, R, helper + '|peek-then-return', 'the returned position is that of the un-consumed character',
                   '%s consumes a character between peek() and the return: that character belongs to no token' % helper)
-        # the loop consumes exactly under the continue condition
-        cls = [d for _b, n, d, _t in qq.all_calls() if n.startswith('methods::is_')]
-        rep.check(any('is_alphanumeric' in c for c in cls), R, helper + '|classifier', 'classifies with char::is_alphanumeric',
-                  '%s classifies with %s' % (helper, cls))
+        # the stop condition: a separator ends exactly at the next alphanumeric character (so it is a maximal
+        # non-alphanumeric run); a word ends at the first character that is neither alphanumeric nor - nor '
+        peeked = '(Peekable::peek(self.chars) as Some).0.1'
+        for bi, v in rets:
+            if not v.startswith('(Peekable::peek'):
+                continue
+            fs = set(qq.facts(bi)) - {'discr(Peekable::peek(self.chars)) == Some'}
+            if helper == 'match_sep':
+                want = {'methods::is_alphanumeric(%s)' % peeked}
+            else:
+                want = {'!methods::is_alphanumeric(%s)' % peeked, "('-' != %s)" % peeked, "('\\'' != %s)" % peeked}
+            rep.check(fs == want, R, helper + '|stop-condition', 'stops exactly under %s' % sorted(want),
+                      '%s stops under %s, expected exactly %s: token boundaries move (e.g. a separator no longer spans a whole '
+                      'non-alphanumeric run)' % (helper, sorted(fs), sorted(want)))
     qn = q(ctx, "<tokenizer::Tokenize<'_> as core::iter::traits::iterator::Iterator>::next")
     if qn is None:
         rep.anchor(R, 'Tokenize::next', 'not found')
